@@ -24,7 +24,7 @@ Qed.
 Lemma emit_last : forall ops lb p, snd (fst (emit ops lb p)) = last (fst (fst (emit ops lb p))) lb.
 Proof.
   induction ops as [|o ops IH]; intros lb p; [reflexivity|].
-  destruct o as [|gc si ol oc nm]; cbn [emit].
+  destruct o as [|gc si ol oc nm|gc]; cbn [emit].
   - specialize (IH SEMI (mkState (gline p + 1) 0 (sidx p) (oline p) (ocol p) (oname p) (has_name p))).
     destruct (emit ops SEMI _) as [[b l] s]. cbn [fst snd] in *. rewrite IH.
     symmetry. apply last_cons_d.
@@ -32,6 +32,10 @@ Proof.
     set (seg := fst (appendMapping lb p cur false)).
     specialize (IH (last seg lb) prev').
     destruct (emit ops (last seg lb) prev') as [[b l] s]. cbn [fst snd] in *. rewrite IH.
+    symmetry. apply last_app_gen.
+  - set (seg := null_seg lb p gc).
+    specialize (IH (last seg lb) (null_state p gc)).
+    destruct (emit ops (last seg lb) (null_state p gc)) as [[b l] s]. cbn [fst snd] in *. rewrite IH.
     symmetry. apply last_app_gen.
 Qed.
 
@@ -41,16 +45,19 @@ Fixpoint st_after (ops : list op) (p : state) : state :=
   | [] => p
   | ONewline :: r => st_after r (nl_state p)
   | OMap gc si ol oc nm :: r => st_after r (snd (next_state p gc si ol oc nm))
+  | ONull gc :: r => st_after r (null_state p gc)
   end.
 
 Lemma emit_state : forall ops lb p, snd (emit ops lb p) = st_after ops p.
 Proof.
   induction ops as [|o ops IH]; intros lb p; [reflexivity|].
-  destruct o as [|gc si ol oc nm]; cbn [emit st_after].
+  destruct o as [|gc si ol oc nm|gc]; cbn [emit st_after].
   - specialize (IH SEMI (nl_state p)). unfold nl_state in *. destruct (emit ops SEMI _) as [[b l] s]. exact IH.
   - destruct (next_state p gc si ol oc nm) as [cur prev'] eqn:En. cbn [snd].
     specialize (IH (last (fst (appendMapping lb p cur false)) lb) prev').
     destruct (emit ops _ prev') as [[b l] s]. exact IH.
+  - specialize (IH (last (null_seg lb p gc) lb) (null_state p gc)).
+    destruct (emit ops _ (null_state p gc)) as [[b l] s]. exact IH.
 Qed.
 
 Lemma st_after_app a b p : st_after (a ++ b) p = st_after b (st_after a p).
@@ -64,23 +71,25 @@ Fixpoint nlines (ops : list op) : Z :=
   | [] => 0
   | ONewline :: r => 1 + nlines r
   | OMap _ _ _ _ _ :: r => nlines r
+  | ONull _ :: r => nlines r
   end.
 
 Lemma nlines_nonneg ops : 0 <= nlines ops.
-Proof. induction ops as [|[|] r IH]; cbn [nlines]; lia. Qed.
+Proof. induction ops as [|[| |] r IH]; cbn [nlines]; lia. Qed.
 
 Lemma nlines_app a b : nlines (a ++ b) = nlines a + nlines b.
-Proof. induction a as [|[|] a IH]; cbn [app nlines]; lia. Qed.
+Proof. induction a as [|[| |] a IH]; cbn [app nlines]; lia. Qed.
 
 Lemma nlines_repeat k : nlines (repeat ONewline k) = Z.of_nat k.
 Proof. induction k as [|k IH]; cbn [repeat nlines]; lia. Qed.
 
 Lemma st_after_gline ops p : gline (st_after ops p) = gline p + nlines ops.
 Proof.
-  revert p. induction ops as [|[|gc si ol oc nm] r IH]; intro p; cbn [st_after nlines].
+  revert p. induction ops as [|[|gc si ol oc nm|gc] r IH]; intro p; cbn [st_after nlines].
   - lia.
   - rewrite IH. unfold nl_state. cbn [gline]. lia.
   - rewrite IH. unfold next_state. destruct nm; cbn [snd gline]; lia.
+  - rewrite IH. unfold null_state. cbn [gline]. lia.
 Qed.
 
 Fixpoint ops_named (ops : list op) : bool :=
@@ -89,16 +98,18 @@ Fixpoint ops_named (ops : list op) : bool :=
   | ONewline :: r => ops_named r
   | OMap _ _ _ _ (Some _) :: _ => true
   | OMap _ _ _ _ None :: r => ops_named r
+  | ONull _ :: r => ops_named r
   end.
 
 Lemma first_name_off_named : forall ops lb p base,
   match first_name_off ops lb p base with Some _ => ops_named ops = true | None => ops_named ops = false end.
 Proof.
-  induction ops as [|[|gc si ol oc [n|]] r IH]; intros lb p base.
+  induction ops as [|[|gc si ol oc [n|]|gc] r IH]; intros lb p base.
   - reflexivity.
   - cbn [first_name_off ops_named]. apply IH.
   - cbn [first_name_off ops_named]. unfold next_state, appendMapping. cbn [has_name]. reflexivity.
   - rewrite fno_map_none. cbn [ops_named]. apply IH.
+  - cbn [first_name_off ops_named]. apply IH.
 Qed.
 
 (* ---------------- the state after rebased events ---------------- *)
@@ -114,7 +125,7 @@ Lemma st_after_rebase dc ds dn : forall ops p0 P fl,
    then oname (st_after (rebase dc ds dn fl ops) P) = oname (st_after ops p0) + dn
    else oname (st_after (rebase dc ds dn fl ops) P) = oname P /\ oname (st_after ops p0) = oname p0).
 Proof.
-  induction ops as [|[|gc si ol oc nm] r IH]; intros p0 P fl HR.
+  induction ops as [|[|gc si ol oc nm|gc] r IH]; intros p0 P fl HR.
   - cbn [rebase st_after nlines ops_named]. rewrite andb_true_r. split; [exact HR|split; reflexivity].
   - cbn [rebase st_after nlines ops_named].
     assert (HR' : rel4 dc ds (nl_state P) (nl_state p0) false).
@@ -138,6 +149,13 @@ Proof.
     + destruct (ops_named r).
       * exact H2.
       * destruct H2 as (A & B). rewrite A, B. subst P1 p1. split; reflexivity.
+  - cbn [rebase st_after nlines ops_named].
+    set (p1 := null_state p0 gc).
+    set (P1 := null_state P (if fl then gc + dc else gc)).
+    assert (HR' : rel4 dc ds P1 p1 fl).
+    { subst P1 p1. destruct HR as (A & B & C & D). unfold null_state, rel4. cbn. destruct fl; repeat split; try assumption; lia. }
+    destruct (IH p1 P1 fl HR') as (H1 & H2). split; [exact H1|].
+    destruct (ops_named r); [exact H2|]. exact H2.
 Qed.
 
 (* ---------------- files ---------------- *)
@@ -393,9 +411,10 @@ Fixpoint joined_abs (tbl : list (Z * Z)) (fs : list jfile) (pos : Z * Z) (total 
 
 Lemma abs_of_app : forall a b l, abs_of (a ++ b) l = abs_of a l ++ abs_of b (l + nlines a).
 Proof.
-  induction a as [|[|gc si ol oc nm] a IH]; intros b l; cbn [app abs_of nlines].
+  induction a as [|[|gc si ol oc nm|gc] a IH]; intros b l; cbn [app abs_of nlines].
   - rewrite Z.add_0_r. reflexivity.
   - rewrite IH. f_equal. f_equal. lia.
+  - rewrite IH. reflexivity.
   - rewrite IH. reflexivity.
 Qed.
 
@@ -403,15 +422,17 @@ Lemma abs_of_newlines k l : abs_of (repeat ONewline k) l = [].
 Proof. revert l. induction k as [|k IH]; intro l; [reflexivity|]. cbn [repeat abs_of]. apply IH. Qed.
 
 Lemma nlines_rebase dc ds dn : forall ops fl, nlines (rebase dc ds dn fl ops) = nlines ops.
-Proof. induction ops as [|[|] r IH]; intro fl; cbn [rebase nlines]; [reflexivity| |]; rewrite IH; reflexivity. Qed.
+Proof. induction ops as [|[| |] r IH]; intro fl; cbn [rebase nlines]; [reflexivity| | |]; rewrite IH; reflexivity. Qed.
 
 Lemma abs_of_rebase line dc ds dn : forall ops l0 fl,
   0 <= l0 -> fl = (l0 =? 0) ->
   abs_of (rebase dc ds dn fl ops) (line + l0) = map (move_abs line dc ds dn) (abs_of ops l0).
 Proof.
-  induction ops as [|[|gc si ol oc nm] r IH]; intros l0 fl H0 Hfl; cbn [rebase abs_of map].
+  induction ops as [|[|gc si ol oc nm|gc] r IH]; intros l0 fl H0 Hfl; cbn [rebase abs_of map].
   - reflexivity.
   - replace (line + l0 + 1) with (line + (l0 + 1)) by lia. apply IH; lia.
+  - rewrite (IH l0 fl H0 Hfl). f_equal. unfold move_abs. cbn [a_gline a_gcol a_src a_name].
+    rewrite <- Hfl. f_equal; [lia|destruct fl; lia].
   - rewrite (IH l0 fl H0 Hfl). f_equal. unfold move_abs. cbn [a_gline a_gcol a_src a_name].
     rewrite <- Hfl. f_equal; [lia|destruct fl; lia].
 Qed.
